@@ -1,6 +1,86 @@
-//! C34: not implemented yet.
+//! C34: JUMBF URIs and manifest labels.  Strings are JSON strings (valid UTF-8); numbers may be decimal strings.
+//!  {k:"parts", guid, v1:bool, cgi:null|str, version:null|n, reason:null|n} -> label, parse of label, parse of its manifest URI
+//!  {k:"parse", s}            -> manifest_label_to_parts(s)
+//!  {k:"uri", m, a}           -> every builder on (m, a) and every parser on every built URI
+//!  {k:"str", m, u}           -> every parser / converter on the raw string u
+//!  {k:"inst", m, label, n}   -> label_with_instance and assertion_label_from_link (bare and inside an assertion URI)
+use c2pa::verif_hooks::c34 as h;
 use serde_json::{json, Value};
 
-pub fn run(_case: &Value) -> Value {
-    json!({"r": "unimplemented"})
+use crate::util::u64_of;
+
+fn s<'a>(v: &'a Value) -> &'a str {
+    v.as_str().expect("string")
+}
+fn opt_n(v: &Value) -> Option<usize> {
+    if v.is_null() {
+        None
+    } else {
+        Some(u64_of(v) as usize)
+    }
+}
+fn parts_json(p: Option<h::Parts>) -> Value {
+    match p {
+        None => Value::Null,
+        Some((guid, v1, cgi, ver, reason)) => json!([guid, v1, cgi, ver.map(|x| x.to_string()), reason.map(|x| x.to_string())]),
+    }
+}
+fn parsers(m: &str, u: &str) -> Value {
+    let (l, n) = h::assertion_label_from_link(u);
+    json!({
+        "norm": h::to_normalized_uri(u),
+        "abs": h::to_absolute_uri(m, u),
+        "rel": h::to_relative_uri(u),
+        "man": h::manifest_label_from_uri(u),
+        "asrt": h::assertion_label_from_uri(u),
+        "box": h::box_name_from_uri(u),
+        "link": [l, n.to_string()],
+    })
+}
+
+pub fn run(case: &Value) -> Value {
+    match case["k"].as_str().unwrap_or("") {
+        "parts" => {
+            let p: h::Parts = (
+                s(&case["guid"]).to_string(),
+                case["v1"].as_bool().expect("v1"),
+                case["cgi"].as_str().map(|x| x.to_string()),
+                opt_n(&case["version"]),
+                opt_n(&case["reason"]),
+            );
+            let label = h::show_parts(p);
+            let parsed = parts_json(h::manifest_label_to_parts(&label));
+            let parsed_uri = parts_json(h::manifest_label_to_parts(&h::to_manifest_uri(&label)));
+            json!({"r": "ok", "label": label, "parsed": parsed, "parsed_uri": parsed_uri})
+        }
+        "parse" => json!({"r": "ok", "parsed": parts_json(h::manifest_label_to_parts(s(&case["s"])))}),
+        "uri" => {
+            let (m, a) = (s(&case["m"]), s(&case["a"]));
+            let built = vec![
+                h::to_manifest_uri(m),
+                h::to_assertion_uri(m, a),
+                h::to_signature_uri(m),
+                h::to_databox_uri(m, a),
+                h::to_verifiable_credential_uri(m, a),
+            ];
+            let parsed: Vec<Value> = built.iter().map(|u| parsers(m, u)).collect();
+            // relative -> absolute again, under the same manifest label
+            let back: Vec<String> = built.iter().map(|u| h::to_absolute_uri(m, &h::to_relative_uri(u))).collect();
+            json!({"r": "ok", "built": built, "parsed": parsed, "back": back})
+        }
+        "str" => {
+            let mut v = parsers(s(&case["m"]), s(&case["u"]));
+            v["r"] = json!("ok");
+            v
+        }
+        "inst" => {
+            let (m, label) = (s(&case["m"]), s(&case["label"]));
+            let n = u64_of(&case["n"]) as usize;
+            let li = h::label_with_instance(label, n);
+            let (l1, n1) = h::assertion_label_from_link(&li);
+            let (l2, n2) = h::assertion_label_from_link(&h::to_assertion_uri(m, &li));
+            json!({"r": "ok", "li": li, "bare": [l1, n1.to_string()], "in_uri": [l2, n2.to_string()]})
+        }
+        _ => json!({"r": "badcase"}),
+    }
 }
